@@ -53,7 +53,12 @@ func NewRegRun(seed uint64, npool int) *RegRun {
 	for i := 0; i < npool && i < len(poolShapes); i++ {
 		rr.pool = append(rr.pool, rr.prefix+poolShapes[i])
 	}
-	rr.never = []string{rr.prefix + "never", "", "no-such-decoration"}
+	// never registered — including names that only differ from a registered one
+	// by case or surrounding white space: the registry is an exact-match map
+	rr.never = []string{rr.prefix + "never", "", "no-such-decoration", "UTF8-Heavy", " none", "ascii-simple\n"}
+	if len(rr.pool) > 0 {
+		rr.never = append(rr.never, strings.ToUpper(rr.pool[0]), rr.pool[0]+" ")
+	}
 	return rr
 }
 
@@ -62,10 +67,19 @@ func (rr *RegRun) tick() int { rr.seq++; return rr.seq }
 // variantDeco is decoration number v: complete, and recognisable in rendered
 // output by its cross-piece glyph.
 func variantDeco(v int) decoration.Decoration {
-	d := decoration.Decoration{Horizontal: "-", Vertical: "|", CrossPiece: string(rune('A' + v%20))}
+	g := variantGlyph(v)
+	if v%20 >= 16 {
+		// hand-built, not Populate()d: only fields the renderer reads are set
+		return decoration.Decoration{HOuter: "=", HRule: "-", VHeader: "!", VBodyBorder: "!", VBodyInner: ":",
+			TopLeft: g, TopRight: g, BottomLeft: g, BottomRight: g, HTopDown: g, BTopDown: g, BBottomUp: g, HBLeft: g, HBRight: g, HBCross: g, LeftBodyRule: g, RightBodyRule: g}
+	}
+	d := decoration.Decoration{Horizontal: "-", Vertical: "|", CrossPiece: g}
 	d.Populate()
 	return d
 }
+
+// variantGlyph is the glyph by which decoration v is recognised in output.
+func variantGlyph(v int) string { return string(rune('A' + v%20)) }
 
 // nameFor resolves a scripted name index: pool names, then built-ins, then
 // never-registered names.
@@ -243,7 +257,7 @@ func (rr *RegRun) CheckC17() *Violation {
 				if latest {
 					sig = "lookup-stale-after-quiescence"
 				}
-				return v(sig, "Named(%q) at [%d,%d] returned decoration %q; allowed variants %v", o.name, o.inv, o.ret, o.got.CrossPiece, keysOf(vars))
+				return v(sig, "Named(%q) at [%d,%d] returned decoration with corner %q; allowed variants %v", o.name, o.inv, o.ret, o.got.TopLeft, keysOf(vars))
 			}
 		case "names":
 			if !sort.StringsAreSorted(o.list) {
@@ -322,7 +336,7 @@ func (rr *RegRun) CheckC17() *Violation {
 				vars, _, _ := rr.allowed(o.name, o.inv, o.ret)
 				ok := false
 				for vv := range vars {
-					if strings.Contains(o.out, variantDeco(vv).CrossPiece) {
+					if strings.Contains(o.out, variantGlyph(vv)) {
 						ok = true
 					}
 				}
@@ -445,7 +459,7 @@ func (rr *RegRun) ProbeC19(registered map[string]int, inflight bool, trailerSeed
 			return v(sig, "ListStyles() advertises %q but auto.New(%q).Render() returned err=%v, %d bytes", s, s, err, len(out))
 		}
 		if variant, ok := registered[s]; ok && !inflight {
-			if !strings.Contains(out, variantDeco(variant).CrossPiece) {
+			if !strings.Contains(out, variantGlyph(variant)) {
 				return v("listed-style-wrong-decoration", "auto.New(%q) did not render with the decoration registered under that name (variant %d): %q", s, variant, firstLine(out))
 			}
 			rr.Probes["registered_style_rendered"]++
